@@ -14,6 +14,10 @@ Definition end_neg (n : N) : op := Seek (End (- Z.of_N n)).
 Definition mm (name : str) (symlink : bool) (data : list N) : member :=
   {| m_name := name; m_symlink := symlink; m_data := data |}.
 
+(* a member whose data is [count] times the same byte (large payloads are described structurally) *)
+Definition mmr (name : str) (symlink : bool) (byte count : N) : member :=
+  {| m_name := name; m_symlink := symlink; m_data := repeat byte (N.to_nat count) |}.
+
 (* the target directory of the model runs (the implementation's is a fresh temp dir; everything observed
    is relative to it) *)
 Definition T0 : loc := [[116; 109; 112]; [116]].
